@@ -95,7 +95,9 @@ def check_predict(chk, rep, repo, cls, fields):
     dens = None
     okc = False
     # the neighbour position read from the index buffer: int(N[r]), N[r].item(), or N[r] itself (an integer-typed buffer)
-    for cand_nb in (nb, ("call", ("attr", ("idx", sc.N, r), "item"), (), ()), ("idx", sc.N, r)):
+    int_buffer = sc.N[0] == "alloc" and dict(sc.N[3]).get("dtype") in (("mod", "numpy.intp"), ("mod", "numpy.int64"), ("builtin", "int"),
+                                                                          ("mod", "numpy.int_"), ("mod", "numpy.int32"))
+    for cand_nb in (nb,) + ((("call", ("attr", ("idx", sc.N, r), "item"), (), ()), ("idx", sc.N, r)) if int_buffer else ()):
         cand_node = ("idx", ("attr", G, "nodes"), cand_nb)
         if bs.cand[0] == "min" and len(bs.cand[1]) == 2 and ("attr", cand_node, "cost") in bs.cand[1]:
             nb, nbnode = cand_nb, cand_node
